@@ -1,10 +1,16 @@
-(* The multi-level control of Model/CounterMulti keeps its own books: an
-   invariant of the control (where the embedded CounterConc threads are when the
-   walk visits them, list lengths, the focus on a claimed counter, quiet
-   embedded threads on return, the registration list duplicate-free) that holds
-   initially and is preserved by every step, so that the self-check flag
-   ms_chk is never set.  Proved here for systems in which no lookup extends the
-   file (no changer opens a FULL file: `nogrow`); there ms_bad stays clear too. *)
+(* Towards the control invariant of Model/CounterMulti WITH inline extension
+   (a generalisation of Proofs/CounterMultiCtl.v, self-contained so that the
+   partial theorems there stay untouched): the base invariant `CIb` of a thread
+   (no statement about m_nest / m_grown), rotations that open a FULL file
+   (changerM FullFile) and an initially full file admitted; every step that is
+   not itself an inline extension preserves it (`core_CI_add`, `core_CI_chg`
+   under `NGH`), hence the control invariant `GI2` holds, and no flag is set, UP
+   TO THE FIRST INLINE EXTENSION of every run (`GI2_run`,
+   `multi_flags_clear_upto`).  NOT here yet: the second walk level (the nested
+   walk over m_nest, the own thread at CounterConc's G program points, the
+   couplings at the growth step and at the nested close); the step lemmas it
+   needs are proved (`step_grow`, `stepG`, `step_gclose_thr`, `llook2_prev2`,
+   `step_prev2`). *)
 From Coq Require Import List ZArith NArith Bool Arith Lia.
 From Tele Require Import Gen.Consts Model.CounterConc Model.CounterMulti Proofs.CounterWord Proofs.CounterInv Proofs.CounterMultiFacts.
 Import ListNotations.
@@ -404,7 +410,7 @@ Proof. unfold claimed, set_claimed. cbn. apply nth_upd_true. Qed.
 Definition NGH (ms : mshared) (t : mthread) : Prop :=
   forall s' u', step_thread np0 (proj (m_c t) ms) (gett t (m_role t) (m_c t)) = (s', u') -> nogrowb (gett t (m_role t) (m_c t)) u' = true.
 
-Lemma core_CI_add ms t ms' t' : MW ms -> CIb ms t -> m_isadd t = true -> NGH ms t ->
+Lemma core_CI_add ms t ms' t' : MW ms -> CIb ms t -> m_isadd t = true -> (m_pc t = MRun -> NGH ms t) ->
   mstep_core ms t = (ms', t') -> step_ok ms t ms' t'.
 Proof.
   intros W (L & X) Ea NG H. rewrite Ea in X. destruct X as (A1 & A2 & A3 & A4 & A5 & A6 & A7 & A8).
@@ -464,7 +470,7 @@ Proof.
     split; [reflexivity|]. split; [apply A7; exact B2|]. split; [exact B1|]. left. left. exact B3.
   - (* MRun *)
     destruct A8 as (B1 & B2 & B3). cbv zeta in H. rewrite B1 in H. rewrite A3 in H.
-    pose proof NG as NG'. unfold NGH in NG'. rewrite B1 in NG'.
+    pose proof (NG eq_refl) as NG'. unfold NGH in NG'. rewrite B1 in NG'.
     destruct (m_role t) eqn:Er; try contradiction; cbn [gett] in H, NG'.
     + (* Add proper *)
       destruct B3 as [C1 C2].
@@ -581,7 +587,7 @@ Proof.
     destruct (w_own w); cbn; auto; destruct (m_prev tt); cbn; auto.
 Qed.
 
-Lemma core_CI_chg ms t ms' t' : MW ms -> CIb ms t -> m_isadd t = false -> NGH ms t ->
+Lemma core_CI_chg ms t ms' t' : MW ms -> CIb ms t -> m_isadd t = false -> (m_pc t = MRun -> NGH ms t) ->
   mstep_core ms t = (ms', t') -> step_ok ms t ms' t'.
 Proof.
   intros W I0 Ea NG H. pose proof I0 as (L & X). rewrite Ea in X. destruct X as (A1 & A2 & A3 & A8).
@@ -603,7 +609,7 @@ Proof.
     set (c := m_c t) in *.
     destruct B3 as [SN SC]. destruct (SC c ltac:(apply in_or_app; right; left; reflexivity)) as [Hc Hcl].
     destruct (nodup_mid _ _ _ SN) as [NP NR].
-    pose proof NG as NG'. unfold NGH in NG'. rewrite B2 in NG'. cbn [gett] in NG'. fold c in NG'.
+    pose proof (NG eq_refl) as NG'. unfold NGH in NG'. rewrite B2 in NG'. cbn [gett] in NG'. fold c in NG'.
     destruct (B4 c Hc) as [[K1 K2] WS].
     destruct (step_thread np0 (proj c ms) (nth c (m_main t) dflt)) as [s' u'] eqn:Es.
     assert (D : (match ph with PInv => inI u' \/ t_pc u' = RfLoad | PRef => pcR (t_pc u') = true \/ fin u' end) /\
@@ -826,3 +832,210 @@ Proof.
   - injection H as <- <-; cbn. split; [auto|]. rewrite Hpc. cbn. intros; congruence.
 Qed.
 
+(* ---- the invariant of the whole system ---- *)
+Definition GI2 (st : mstate) : Prop :=
+  let '(ms, ts) := st in
+  ms_chk ms = false /\ ms_bad ms = false /\ MW ms /\ Forall (CI ms) ts /\
+  (forall j t, nth_error ts j = Some t -> m_isadd t = true -> m_wrote t = true -> reg_phase t = true ->
+     ~ In (m_k t) (ms_list ms)) /\
+  (forall i j ti tj, nth_error ts i = Some ti -> nth_error ts j = Some tj -> i <> j ->
+     m_isadd ti = true -> m_isadd tj = true -> m_wrote ti = true -> m_wrote tj = true -> m_k ti <> m_k tj).
+
+Lemma CI_wrote_claimed ms t : CIb ms t -> m_isadd t = true -> m_wrote t = true -> claimed ms (m_k t) = true /\ (m_k t < nc ms)%nat.
+Proof. intros (_ & X) Ea Hw. rewrite Ea in X. destruct X as (A1 & _ & _ & _ & _ & _ & A7 & _). auto. Qed.
+Lemma CI_chg_wrote ms t : CIb ms t -> m_isadd t = false -> m_wrote t = false /\ reg_phase t = false.
+Proof.
+  intros (_ & X) Ea. rewrite Ea in X. destruct X as (_ & A2 & _ & A8). split; [exact A2|].
+  unfold reg_phase. destruct (m_pc t); try reflexivity; contradiction.
+Qed.
+
+Definition NGH_at (st : mstate) (i : nat) : Prop :=
+  match nth_error (snd st) i with Some t => m_pc t = MRun -> NGH (fst st) t | None => True end.
+
+Theorem GI2_step st i : GI2 st -> NGH_at st i -> GI2 (mstep st i).
+Proof.
+  destruct st as [ms ts]. intros (C & B & W & F & U3 & U2) NG. unfold NGH_at in NG. cbn [fst snd] in NG. unfold mstep.
+  destruct (nth_error ts i) as [t0|] eqn:Hn; [|exact (conj C (conj B (conj W (conj F (conj U3 U2)))))].
+  pose proof (nth_error_Forall _ _ _ _ F Hn) as I0c. pose proof I0c as (I0 & Ne0 & Gr0).
+  unfold mstep_thread. destruct (mstep_core ms t0) as [ms1 t1] eqn:Hc. cbn [fst snd].
+  assert (SO : step_ok ms t0 ms1 t1).
+  { destruct (m_isadd t0) eqn:Ea; [eapply core_CI_add | eapply core_CI_chg]; eauto. }
+  destruct SO as (C1 & B1 & EN & EG & ET & I1 & G & S1 & E1 & E2).
+  destruct (CIb_lens_focus _ _ I0 ltac:(rewrite Ne0; apply repeat_length)) as [LO FO].
+  rewrite LO, FO, (CIb_done_ok _ _ I1 ltac:(rewrite EN, Ne0; apply quiet_nest0)). cbn [andb negb]. rewrite set_chk_false.
+  pose proof G as [N CM]. pose proof W as (W1 & W2 & W3 & W4 & W5). destruct S1 as (S1 & S4 & S5).
+  pose proof (core_list _ _ _ _ Hc) as CL.
+  assert (LNK : m_pc t0 = MRLink -> m_isadd t0 = true /\ m_wrote t0 = true /\ reg_phase t0 = true).
+  { intros Hp. destruct (m_isadd t0) eqn:Ea.
+    - destruct I0 as (_ & X). rewrite Ea in X. destruct X as (_ & _ & _ & _ & _ & _ & _ & A8). rewrite Hp in A8.
+      unfold reg_phase. rewrite Hp. repeat split; apply A8.
+    - destruct (CI_chg_wrote _ _ I0 Ea) as [_ R]. unfold reg_phase in R. rewrite Hp in R. discriminate. }
+  split; [congruence|]. split; [congruence|]. split; [|split; [|split]].
+  - (* MW *)
+    unfold MW. split; [exact S1|]. split; [|split; [|split; [exact S4|exact S5]]].
+    + intros j Hj. rewrite N. destruct CL as [CL | (Hp & CL)]; rewrite CL in Hj.
+      * destruct (W2 j Hj). auto.
+      * destruct Hj as [<-|Hj]; [|destruct (W2 j Hj); auto].
+        destruct (LNK Hp) as (Ea & Hw & _). destruct (CI_wrote_claimed _ _ I0 Ea Hw). auto.
+    + destruct CL as [-> | (Hp & ->)]; [exact W3|]. constructor; [|exact W3].
+      destruct (LNK Hp) as (Ea & Hw & Hr). exact (U3 i t0 Hn Ea Hw Hr).
+  - apply Forall_upd; [|split; [exact I1|]; rewrite EN, EG, N; auto]. apply Forall_forall. intros x Hx. apply (CI_mono ms); [exact G|].
+    rewrite Forall_forall in F. apply F. exact Hx.
+  - (* a linker's counter is not on the list *)
+    intros j t Hj Ea Hw Hr. destruct (Nat.eq_dec i j) as [<-|Nij].
+    + rewrite (nth_error_upd_same _ _ _ _ Hn) in Hj. injection Hj as <-.
+      assert (Ea0 : m_isadd t0 = true) by congruence.
+      destruct (core_wrote_add _ _ _ _ Hc I0 Ea0) as [_ X]. destruct (X Hr Hw) as [(R0 & W0 & Lk)|(Cf & Ll)].
+      * rewrite E2. destruct CL as [-> | (Hp & _)]; [|rewrite (Lk Hp)]; exact (U3 i t0 Hn Ea0 W0 R0).
+      * rewrite E2, Ll. intros Hin. destruct (W2 _ Hin). congruence.
+    + rewrite nth_error_upd_other in Hj by exact Nij.
+      destruct CL as [-> | (Hp & ->)]; [exact (U3 j t Hj Ea Hw Hr)|].
+      intros [Hin|Hin]; [|exact (U3 j t Hj Ea Hw Hr Hin)].
+      destruct (LNK Hp) as (Ea0 & Hw0 & _). exact (U2 i j t0 t Hn Hj Nij Ea0 Ea Hw0 Hw Hin).
+  - (* one claimer per counter *)
+    assert (KEY : forall j tj, nth_error ts j = Some tj -> i <> j -> m_isadd t1 = true -> m_isadd tj = true ->
+                  m_wrote t1 = true -> m_wrote tj = true -> m_k t1 <> m_k tj).
+    { intros j tj Hj Nij Ea1 Eaj Hw1 Hwj. assert (Ea0 : m_isadd t0 = true) by congruence.
+      destruct (core_wrote_add _ _ _ _ Hc I0 Ea0) as [[X|(X1 & X2 & _)] _].
+      - rewrite E2. apply (U2 i j t0 tj Hn Hj Nij Ea0 Eaj); congruence.
+      - rewrite E2. intros Heq. rewrite Forall_forall in F.
+        destruct (CI_wrote_claimed ms tj (proj1 (F tj (nth_error_In _ _ Hj))) Eaj Hwj). congruence. }
+    intros a b ta tb Ha Hb Nab Eaa Eab Hwa Hwb.
+    destruct (Nat.eq_dec i a) as [<-|Nia]; destruct (Nat.eq_dec i b) as [<-|Nib]; try congruence.
+    + rewrite (nth_error_upd_same _ _ _ _ Hn) in Ha. injection Ha as <-. rewrite nth_error_upd_other in Hb by exact Nib.
+      exact (KEY b tb Hb Nib Eaa Eab Hwa Hwb).
+    + rewrite (nth_error_upd_same _ _ _ _ Hn) in Hb. injection Hb as <-. rewrite nth_error_upd_other in Ha by exact Nia.
+      intros Heq. exact (KEY a ta Ha Nia Eab Eaa Hwb Hwa (eq_sym Heq)).
+    + rewrite nth_error_upd_other in Ha, Hb by assumption. exact (U2 a b ta tb Ha Hb Nab Eaa Eab Hwa Hwb).
+Qed.
+
+
+(* ---- up to the first inline extension ---- *)
+Definition has_grown (ts : list mthread) : bool := existsb m_grown ts.
+
+Lemma core_grown ms t ms' t' : mstep_core ms t = (ms', t') -> m_grown t = true -> m_grown t' = true.
+Proof.
+  intros H G. unfold mstep_core in H. destruct (m_pc t).
+  - destruct (m_isadd t); injection H as <- <-; exact G.
+  - destruct (claimed ms (m_k t)); injection H as <- <-; exact G.
+  - injection H as <- <-; exact G.
+  - destruct (m_wrote t); [|destruct (claimed ms (m_k t))]; injection H as <- <-; exact G.
+  - destruct (onat_eqb _ _); injection H as <- <-; exact G.
+  - injection H as <- <-; exact G.
+  - injection H as <- <-; exact G.
+  - injection H as <- <-; exact G.
+  - cbv zeta in H. destruct (step_thread np0 _ _) as [s' u'].
+    destruct (_ && m_grown t); [injection H as <- <-; exact G|].
+    destruct (pc_is _ LLook2 && _); [injection H as <- <-; reflexivity|].
+    destruct (m_walks t); [destruct (pc_is (t_pc u') Done); [destruct (m_role t)|]|destruct (visit_ended _ _ _)];
+      injection H as <- <-; destruct (m_role t); exact G.
+  - injection H as <- <-. exact G.
+  - injection H as <- <-; exact G.
+  - destruct (m_walks t) as [|w ws]; [injection H as <- <-; exact G|].
+    cbv zeta in H. injection H as <- <-. rewrite (proj1 (proj2 (advance_fields _))).
+    destruct (w_own w) as [[r c]|]; [destruct (negb _); [destruct r|]|]; exact G.
+  - injection H as <- <-. rewrite (proj1 (proj2 (advance_fields _))). exact G.
+  - destruct (m_walks t) as [|w ws]; [injection H as <- <-; exact G|].
+    destruct (w_own w) as [[r c]|].
+    + destruct (step_thread np0 _ _) as [s' u']. injection H as <- <-. destruct r; exact G.
+    + destruct (m_prev t); injection H as <- <-; exact G.
+  - injection H as <- <-; exact G.
+Qed.
+
+Lemma existsb_upd (f : mthread -> bool) l i t t' : nth_error l i = Some t -> (f t = true -> f t' = true) ->
+  existsb f l = true -> existsb f (upd l i t') = true.
+Proof.
+  revert i; induction l as [|x l IH]; intros [|i] Hn Hf H; cbn in *; try discriminate.
+  - injection Hn as ->. apply orb_true_iff in H as [H|H]; [rewrite (Hf H); reflexivity | rewrite H; apply orb_true_r].
+  - apply orb_true_iff in H as [H|H]; [rewrite H; reflexivity | rewrite (IH _ Hn Hf H); apply orb_true_r].
+Qed.
+Lemma existsb_upd_new (f : mthread -> bool) l i t t' : nth_error l i = Some t -> f t' = true -> existsb f (upd l i t') = true.
+Proof.
+  revert i; induction l as [|x l IH]; intros [|i] Hn Hf; cbn in *; try discriminate.
+  - rewrite Hf. reflexivity.
+  - rewrite (IH _ Hn Hf). apply orb_true_r.
+Qed.
+
+Lemma mstep_grown_mono st i : has_grown (snd st) = true -> has_grown (snd (mstep st i)) = true.
+Proof.
+  destruct st as [ms ts]. cbn [snd]. intros H. unfold mstep. destruct (nth_error ts i) as [t|] eqn:Hn; [|exact H].
+  unfold mstep_thread. destruct (mstep_core ms t) as [ms1 t1] eqn:Hc. cbn [fst snd].
+  apply (existsb_upd m_grown ts i t t1 Hn); [apply (core_grown _ _ _ _ Hc) | exact H].
+Qed.
+Lemma mrun_grown_mono sched : forall st, has_grown (snd st) = true -> has_grown (snd (mrun sched st)) = true.
+Proof. induction sched as [|i sched IH]; intros st H; [exact H|]. cbn [mrun fold_left]. apply IH. apply mstep_grown_mono. exact H. Qed.
+
+(* a step that extends the file marks its thread *)
+Lemma step_grows st i : GI2 st -> ~ NGH_at st i -> has_grown (snd (mstep st i)) = true.
+Proof.
+  destruct st as [ms ts]. intros (C & B & W & F & _) NN. unfold NGH_at in NN. cbn [fst snd] in *. unfold mstep.
+  destruct (nth_error ts i) as [t|] eqn:Hn; [|exfalso; apply NN; exact I].
+  pose proof (nth_error_Forall _ _ _ _ F Hn) as (I0 & Ne0 & Gr0).
+  unfold mstep_thread. destruct (mstep_core ms t) as [ms1 t1] eqn:Hc. cbn [fst snd].
+  apply (existsb_upd_new m_grown ts i t t1 Hn).
+  destruct (m_pc t) eqn:Hpc; try (exfalso; apply NN; intros X; discriminate X).
+  unfold mstep_core in Hc. rewrite Hpc in Hc. cbv zeta in Hc.
+  destruct (step_thread np0 (proj (m_c t) ms) (gett t (m_role t) (m_c t))) as [s' u'] eqn:Es.
+  destruct (pc_is (t_pc (gett t (m_role t) (m_c t))) LLook2 && pc_is (t_pc u') GIvLoad) eqn:Eg.
+  - rewrite Gr0 in Hc. cbn [andb] in Hc. injection Hc as <- <-. reflexivity.
+  - exfalso. apply NN. intros _ s'' u'' E. rewrite Es in E. injection E as <- <-. unfold nogrowb. rewrite Eg. reflexivity.
+Qed.
+
+Theorem GI2_run sched : forall st, GI2 st -> has_grown (snd (mrun sched st)) = false -> GI2 (mrun sched st).
+Proof.
+  induction sched as [|i sched IH]; intros st G H; [exact G|]. cbn [mrun fold_left] in *.
+  assert (H1 : has_grown (snd (mstep st i)) = false).
+  { destruct (has_grown (snd (mstep st i))) eqn:E; [|reflexivity]. pose proof (mrun_grown_mono sched _ E) as X. unfold mrun in X. rewrite X in H. discriminate. }
+  apply IH; [|exact H]. apply GI2_step; [exact G|].
+  unfold NGH_at. destruct (nth_error (snd st) i) as [t|] eqn:Hn; [|exact I].
+  intros Hpc s' u' Es. destruct (nogrowb (gett t (m_role t) (m_c t)) u') eqn:Eb; [reflexivity|]. exfalso.
+  assert (NN : ~ NGH_at st i).
+  { unfold NGH_at. rewrite Hn. intros X. specialize (X Hpc s' u' Es). congruence. }
+  rewrite (step_grows st i G NN) in H1. discriminate.
+Qed.
+
+(* ---- initial states: full files and rotations that open a full file allowed ---- *)
+Definition ctl_init (ms : mshared) (ts : list mthread) : Prop :=
+  MW ms /\ Forall (fun t => m_isadd t = false -> m_tgt t = NewFile \/ m_tgt t = FullFile) ts.
+
+Lemma init_CI2 ms t : mthread_init (nc ms) t -> (m_isadd t = false -> m_tgt t = NewFile \/ m_tgt t = FullFile) -> CI ms t.
+Proof.
+  intros [(k & n & Hk & Hn & ->)|(tg & ->)] Ht.
+  - unfold CI, CIb, adderM. msimp. rewrite upd_len, repeat_length. split; [|split; reflexivity]. split; [reflexivity|].
+    unfold CIadd. msimp. split; [exact Hk|]. split.
+    { intros j Hj. rewrite nth_upd_other by exact Hj. rewrite nth_repeat. destruct (Nat.ltb j (nc ms)); reflexivity. }
+    rewrite nth_upd_same by (rewrite repeat_length; exact Hk). cbn. repeat split; auto; discriminate.
+  - specialize (Ht eq_refl). cbn in Ht.
+    unfold CI, CIb, changerM. msimp. rewrite repeat_length. split; [|split; reflexivity]. split; [reflexivity|].
+    unfold CIchg. msimp. repeat (split; [first [reflexivity|exact Ht]|]). intros j Hj. rewrite nth_repeat.
+    apply Nat.ltb_lt in Hj. rewrite Hj. split; reflexivity.
+Qed.
+
+Lemma init_GI2 ms ts : mgood ms ts -> ctl_init ms ts -> GI2 (ms, ts).
+Proof.
+  intros (C & B & FT & _ & _) (W & FN). unfold GI2. split; [exact C|]. split; [exact B|]. split; [exact W|].
+  split; [|split].
+  - rewrite Forall_forall in *. intros t Ht. apply init_CI2; [apply FT; exact Ht | apply FN; exact Ht].
+  - intros j t Hj _ Hw. rewrite Forall_forall in FT.
+    assert (X : m_wrote t = false) by (destruct (FT t (nth_error_In _ _ Hj)) as [(k & n & _ & _ & ->)|(tg & ->)]; reflexivity).
+    congruence.
+  - intros i j ti tj Hi _ _ _ _ Hw. rewrite Forall_forall in FT.
+    assert (X : m_wrote ti = false) by (destruct (FT ti (nth_error_In _ _ Hi)) as [(k & n & _ & _ & ->)|(tg & ->)]; reflexivity).
+    congruence.
+Qed.
+
+(* up to the first inline extension no schedule sets a flag: full files and
+   changerM FullFile included *)
+Theorem multi_flags_clear_upto ms0 ts0 sched : mgood ms0 ts0 -> ctl_init ms0 ts0 ->
+  has_grown (snd (mrun sched (ms0, ts0))) = false ->
+  ms_chk (fst (mrun sched (ms0, ts0))) = false /\ ms_bad (fst (mrun sched (ms0, ts0))) = false.
+Proof.
+  intros G N H. pose proof (GI2_run sched _ (init_GI2 _ _ G N) H) as X.
+  destruct (mrun sched (ms0, ts0)) as [ms ts]. destruct X as (C & B & _). auto.
+Qed.
+
+Theorem multi_inv_upto ms0 ts0 sched k : mgood ms0 ts0 -> reg_init ms0 -> ctl_init ms0 ts0 ->
+  has_grown (snd (mrun sched (ms0, ts0))) = false -> (k < length (ms_ctrs ms0))%nat ->
+  Inv (total_k k ms0 ts0) (sproj k (mrun sched (ms0, ts0))) /\
+  Forall (fun t => done_ok t = true) (snd (mrun sched (ms0, ts0))).
+Proof. intros G R N H Hk. destruct (multi_flags_clear_upto ms0 ts0 sched G N H) as [C B]. apply multi_inv; assumption. Qed.
